@@ -117,31 +117,86 @@ Proof.
   cbn [flat_map List.length]. rewrite app_length. lia.
 Qed.
 
-(* elements with non-empty encodings: the count fits in the input, [rep] is the plain loop *)
-Lemma rep_exact_gen : forall {A B} (f : B -> A) (enc : B -> bytes) p (l : list B) n,
+(* the encodings of the members of one container: all of at least one byte (the count fits
+   in the input, [rep] is the plain loop), or all empty (zero-width elements: lists of void,
+   of empty tuples ...; [rep] may take either branch) *)
+Definition uniform (es : list bytes) : Prop :=
+  Forall (fun e => 1 <= List.length e) es \/ Forall (fun e => e = []) es.
+
+Lemma flat_map_nil : forall {B} (enc : B -> bytes) (l : list B),
+  Forall (fun e => e = []) (map enc l) -> flat_map enc l = [].
+Proof.
+  intros B enc l HF. apply Forall_map in HF. induction HF as [|v l' Hv HF' IH]; [reflexivity|].
+  cbn [flat_map]. rewrite Hv, IH. reflexivity.
+Qed.
+
+Lemma map_const_repeat : forall {A B} (f : B -> A) (l : list B) z,
+  Forall (fun v => f v = z) l -> map f l = repeat z (List.length l).
+Proof.
+  intros A B f l z HF. induction HF as [|v l' Hv HF' IH]; [reflexivity|].
+  cbn [map List.length repeat]. rewrite Hv, IH. reflexivity.
+Qed.
+
+(* a parser that is exact on the empty encoding returns one and the same result *)
+Lemma exact_nil_unique : forall {A} (p : bytes -> res (A * bytes)) x y,
+  exact p x [] -> exact p y [] -> x = y.
+Proof.
+  intros A p x y Hx Hy. specialize (Hx []). specialize (Hy []). rewrite Hx in Hy. now injection Hy.
+Qed.
+
+(* zero-width elements: whichever branch [rep] takes, the result is the count followed by
+   nothing, decoded as that many copies of the one value the element parser returns *)
+Lemma rep_exact_nil : forall {A B} (f : B -> A) (enc : B -> bytes) p (l : list B) n,
   n = N.of_nat (List.length l) ->
-  Forall (fun v => exact p (f v) (enc v) /\ 1 <= List.length (enc v)) l ->
+  Forall (fun v => exact p (f v) (enc v)) l ->
+  Forall (fun e => e = []) (map enc l) ->
   exact (rep p n) (map f l) (flat_map enc l).
 Proof.
-  intros A B f enc p l n Hn HF rest. unfold rep.
+  intros A B f enc p l n Hn HF Hnil rest. rewrite (flat_map_nil enc l Hnil). cbn [app].
+  unfold rep. destruct (N.of_nat (List.length rest) <? n)%N eqn:Hlt.
+  - destruct l as [|v l'].
+    + subst n. reflexivity.
+    + cbn [rep_slow]. assert (Hnz : (n =? 0)%N = false) by (cbn [List.length] in Hn; lia).
+      rewrite Hnz.
+      apply Forall_map in Hnil.
+      assert (Hv : exact p (f v) []).
+      { inversion HF as [|v0 l0 Hv0 HF0]; subst. inversion Hnil as [|v1 l1 Hv1 Hn1]; subst.
+        rewrite Hv1 in Hv0. exact Hv0. }
+      pose proof (Hv rest) as Hp. cbn [app] in Hp. rewrite Hp.
+      assert (Hlt' : Nat.ltb (List.length rest) (List.length rest) = false) by (apply Nat.ltb_ge; lia).
+      rewrite Hlt'. cbn [rev app]. subst n. rewrite Nat2N.id.
+      rewrite (map_const_repeat f (v :: l') (f v)); [reflexivity|].
+      rewrite Forall_forall in HF, Hnil |- *. intros x Hin.
+      pose proof (HF x Hin) as Hx. rewrite (Hnil x Hin) in Hx. exact (exact_nil_unique p _ _ Hx Hv).
+  - subst n. rewrite Nat2N.id.
+    pose proof (rep_nat_exact_gen f enc p l HF rest) as Hr.
+    rewrite (flat_map_nil enc l Hnil) in Hr. exact Hr.
+Qed.
+
+Lemma rep_exact_gen : forall {A B} (f : B -> A) (enc : B -> bytes) p (l : list B) n,
+  n = N.of_nat (List.length l) ->
+  Forall (fun v => exact p (f v) (enc v)) l ->
+  uniform (map enc l) ->
+  exact (rep p n) (map f l) (flat_map enc l).
+Proof.
+  intros A B f enc p l n Hn HF [Hsz|Hnil]; [|now apply rep_exact_nil].
+  intro rest. unfold rep.
+  apply (proj1 (Forall_map enc (fun e => 1 <= List.length e) l)) in Hsz. cbv beta in Hsz.
   assert (Hlen : List.length l <= List.length (flat_map enc l ++ rest)).
-  { rewrite app_length.
-    pose proof (flat_map_length_ge enc l) as Hge.
-    assert (HF1 : Forall (fun v => 1 <= List.length (enc v)) l)
-      by (eapply Forall_impl; [|exact HF]; intros v [_ Hv]; exact Hv).
-    specialize (Hge HF1). lia. }
+  { rewrite app_length. pose proof (flat_map_length_ge enc l Hsz) as Hge. lia. }
   assert (Hlt : (N.of_nat (List.length (flat_map enc l ++ rest)) <? n)%N = false) by lia.
   rewrite Hlt. subst n. rewrite Nat2N.id.
-  apply rep_nat_exact_gen. eapply Forall_impl; [|exact HF]. intros v [Hv _]; exact Hv.
+  apply rep_nat_exact_gen. exact HF.
 Qed.
 
 Lemma rep_exact : forall {A} (enc : A -> bytes) p (l : list A) n,
   n = N.of_nat (List.length l) ->
-  Forall (fun v => exact p v (enc v) /\ 1 <= List.length (enc v)) l ->
+  Forall (fun v => exact p v (enc v)) l ->
+  uniform (map enc l) ->
   exact (rep p n) l (flat_map enc l).
 Proof.
-  intros A enc p l n Hn HF. rewrite <- (map_id l) at 1.
-  apply (rep_exact_gen (fun v => v) enc p l n Hn HF).
+  intros A enc p l n Hn HF Hu. rewrite <- (map_id l) at 1.
+  apply (rep_exact_gen (fun v => v) enc p l n Hn HF Hu).
 Qed.
 
 (* ---------- has_ty: unfolding equations and inversion per value constructor ---------- *)
@@ -264,11 +319,11 @@ Qed.
 
 Lemma has_ty_VDyn_eq : forall t' v',
   has_ty (VDyn t' v') (TS SValue) =
-  good_ty t' && (N.of_nat (String.length (print t')) <=? MaxStringSize)%N && has_ty v' t'.
+  wf_ty t' && (N.of_nat (String.length (print t')) <=? MaxStringSize)%N && has_ty v' t'.
 Proof. reflexivity. Qed.
 
 Lemma has_ty_VDyn : forall t' v' t, has_ty (VDyn t' v') t = true ->
-  t = TS SValue /\ good_ty t' = true /\
+  t = TS SValue /\ wf_ty t' = true /\
   (N.of_nat (String.length (print t')) <= MaxStringSize)%N /\ has_ty v' t' = true.
 Proof.
   intros t' v' t H. destruct t as [s| | | |]; try (cbn in H; discriminate).
